@@ -90,6 +90,7 @@ type Obligation struct {
 	Unsupp  string
 	IsCover bool
 	Inputs  []ModelInput
+	Hints   []*Term // user-supplied instantiation terms (contract clause "hint")
 }
 
 type ModelInput struct {
@@ -186,6 +187,9 @@ type Exec struct {
 	dbAx          []dbAxiom
 	constArrs     map[string]*Term
 	rawElemTy     map[string]types.Type
+	logicalCache  map[string]Val
+	hintTerms     []*Term
+	inCalleeOnly  bool
 	epochCounter  int
 	pendingBinds  []*Clause
 	callCount     map[string]int
